@@ -591,13 +591,14 @@ def gen_storage_case(rng, kind, size):
                     val = nextval[0]
                 if rng.random() < 0.15 and sim.get(oid) and cur(oid)[1] is not None:
                     val = cur(oid)[1]      # byte-identical to what is committed now (e.g. +5 and +5)
+                val = max(val, 0)          # states are natural numbers
                 ops.append('store %d %d %d %s' % (w, oid, serial, L.rec_wire(cls[oid], 0, val)))
                 c = cur(oid)
                 if c[0] == 0 or serial == c[0]:
                     staged[w][oid] = val
                 elif (resolves(kind) and c[1] is not None and cls[oid] in (COUNTER, MERGE)
                       and any(t == serial and v is not None for t, v in sim.get(oid, []))):
-                    staged[w][oid] = val if cls[oid] == MERGE else c[1] + val - seen
+                    staged[w][oid] = val if cls[oid] == MERGE else max(c[1] + val - seen, 0)    # (the counter merge saturates at 0)
             elif r < 0.70:
                 oid = rng.choice(oids)
                 serial = view[w].get(oid, (0, 0))[0]
@@ -1854,6 +1855,12 @@ def main(argv=None):
                         for later in (1, 2):
                             cases.append(dict(section='histrace', kind=kind, objs=['o0'], cls={'o0': c},
                                               nconn=2, later=later))
+    # states are trees over NATURAL numbers: a case with a negative atom (written by an older generator)
+    # is not in the model's input language and is not run
+    bad = [c for c in cases if any('a-' in o for o in c.get('ops', []))]
+    for c in bad:
+        ck.count('ill-formed-case-dropped')
+    cases = [c for c in cases if c not in bad]
     for c in cases:
         if 'build' not in c and c.get('section') in ('storage', 'db', 'sched') and not ck.replay_path:
             c['build'] = gen_build(ck.rng)
